@@ -636,11 +636,8 @@ impl Model {
                 for x in lost {
                     self.leak(x);
                 }
-                // the forgotten element itself must never be visible again:
-                // remove one occurrence of t from the universe
-                if let Some(pos) = p.relax.universe.iter().position(|x| *x == t) {
-                    p.relax.universe.swap_remove(pos);
-                }
+                // (the forgotten element itself was neither moved out nor destroyed: should it
+                // still be in the vector - alive, once - nothing in C07 is broken)
                 p.relax.prefix[slot] = keep;
             }
         }
@@ -801,9 +798,6 @@ impl Model {
                 ITEM_KEEP => self.pool.push(t),
                 ITEM_FORGET => {
                     self.leak(t);
-                    if let Some(pos) = p.relax.universe.iter().position(|x| *x == t) {
-                        p.relax.universe.swap_remove(pos);
-                    }
                 }
                 ITEM_INSPECT => {
                     p.ev.push(Ev::Bool(true));
@@ -909,11 +903,10 @@ impl Model {
         } else {
             // END_FORGET: the vector keeps only the head for sure
             p.always_relaxed = true;
+            // (range elements that were not yielded "may be missing" - they may as well still be
+            // there, alive and once, e.g. when the call refused the range before building the iterator)
             for &t in &range[f..bk] {
                 self.leak(t);
-                if let Some(pos) = p.relax.universe.iter().position(|x| *x == t) {
-                    p.relax.universe.swap_remove(pos);
-                }
             }
             for &t in &tail {
                 self.leak(t);
